@@ -1045,7 +1045,7 @@ class ExprMixin:
             if not self.spec_mode:
                 for lab, r in c.labelled("requires"):
                     stc = st.clone()
-                    g = self.truth(stc, self._spec_in(stc, r, None, frame))
+                    g = self.truth(stc, self.eval_goal(stc, r, None, mode="in", frame=frame))
                     self.oblige(stc, g, "pre", f"{short}.{lab}", self.loc(node), r)
                     st.assume(g)
             # exceptional behaviour
@@ -1058,10 +1058,9 @@ class ExprMixin:
             # frame
             if st.qmode is not None and [a_ for a_ in c.assigns if a_ not in ("rng", "evals")]:
                 raise Unsupported("callee with side effects inside a comprehension body")
-            self._havoc_locs_in(st, c.assigns, frame)
             if c.allocates:
-                alloc_before = st.alloc
                 st.havoc_alloc()
+            self._havoc_locs_in(st, c.assigns, frame)
             ret = NONE
             if c.returns is not None:
                 rt = parse_type(self.ret_type(c))
@@ -1093,7 +1092,7 @@ class ExprMixin:
             st.assume(ret.z >= pre.alloc)
 
     def _spec_in(self, st, expr, old, frame):
-        node = ast.parse(expr.strip(), mode="eval").body
+        node = self._parse_clause(expr)
         saved_old, self.old_state = self.old_state, old
         self.spec_mode += 1
         st.frames.append(dict(frame))
